@@ -1010,6 +1010,34 @@ def parse(
     db_folder.mkdir(parents=True, exist_ok=True)
 
     full_db_path = db_folder / cache_db
+
+    for attempt in range(2):
+        try:
+            return _parse_cached(
+                txt, full_db_path, pymoca_version, cache_expiration_days, always_update_last_hit
+            )
+        except sqlite3.DatabaseError as e:
+            # The database was fine when this process first checked it, but has been
+            # corrupted or changed its table layout since. Forget that we checked it,
+            # such that the retry runs the integrity and layout checks again.
+            # (A database that is merely locked by another process is not unusable.)
+            if (
+                attempt > 0
+                or "locked" in str(e)
+                or full_db_path not in getattr(parse, "initialized_dbs", ())
+            ):
+                raise
+            logger.warning("Model cache database became unusable, checking it again...")
+            parse.initialized_dbs.discard(full_db_path)
+
+
+def _parse_cached(
+    txt: str,
+    full_db_path: Path,
+    pymoca_version: str,
+    cache_expiration_days: int,
+    always_update_last_hit: bool,
+) -> Union[ast.Tree, None]:
     conn = sqlite3.connect(full_db_path, isolation_level=None)
 
     cursor = conn.cursor()
@@ -1083,7 +1111,9 @@ def parse(
             conn.commit()
         try:
             tree = pickle.loads(pickled_data)
-        except pickle.UnpicklingError:
+        except Exception:
+            # Besides UnpicklingError, unpickling damaged data can raise e.g.
+            # EOFError, AttributeError, ImportError or IndexError
             logger.warning(f"Model with hash '{txt_hash}' ({pymoca_version}) failed to unpickle")
     else:
         logger.debug(f"Model with hash '{txt_hash}' ({pymoca_version}) not in cache")
